@@ -1,6 +1,8 @@
 import Zeno.Proofs.Pipeline
 import Zeno.Proofs.Life
 import Zeno.Proofs.LifeDone
+import Zeno.Proofs.Flow
+import Zeno.Gen.Reactor
 import Zeno.Gen.Stages
 import Zeno.Gen.Pipeline
 import Zeno.Gen.Item
@@ -111,5 +113,57 @@ theorem c01_acknowledged_tree_is_done (cfg : Cfg) (hdc : cfg.domainsCrawl = fals
     (hfin : (Zeno.Model.Life.life Zeno.Gen.Stages.facts I cfg os seen (.node i .nil)).2 = some t') : t'.anyPending = false :=
   Zeno.Model.Life.life_done Zeno.Gen.Stages.facts (by decide) (by decide) I (by decide) cfg hdc os seen 0 _
     (Zeno.Model.Life.start_seed cfg.maxRedirect i hf hr) (Zeno.Model.Life.Tree.wp_zero _) hids t' hfin
+
+/-! ## no interleaving of the workers wedges the pipeline
+
+`Model/Flow.lean`: the reactor's input channel and token pool, the `run` goroutine, the four stage channels with their worker
+pools, the finisher's two channels to the source — as counters, with every receive and every send a separate step that is
+enabled only when the channel has an item / has room and a worker is free. The capacities are facts: every stage channel is
+buffered with `--workers`, the reactor has `--workers` tokens and an input channel of that size, every stage starts `--workers`
+workers. -/
+
+theorem flow_facts_ok :
+    (P.stageChannelsBufferedWithWorkers && P.makeStageChannelUsesItsSize && P.reactorTokensAreWorkers &&
+     P.everyStageStartsWorkersCountWorkers && Zeno.Gen.Reactor.facts.tokenCapIsMax && Zeno.Gen.Reactor.facts.inputCapIsMax &&
+     Zeno.Gen.Reactor.facts.feedbackTakesNoToken) = true := by decide
+
+open Zeno.Model.Flow in
+/-- **Bounded in flight.** In every reachable state of the flow, the seeds inside the pipeline are exactly the tokens in use, and
+never more than `--workers`. -/
+theorem c01_in_flight_eq_tokens (w : Nat) (acts : List Act) :
+    (Zeno.Model.Flow.run ⟨w, w, w⟩ {} acts).seeds = (Zeno.Model.Flow.run ⟨w, w, w⟩ {} acts).used ∧
+    (Zeno.Model.Flow.run ⟨w, w, w⟩ {} acts).used ≤ w :=
+  let h := inv_run ⟨w, w, w⟩ acts {} (inv_init _)
+  ⟨h.acct, h.bound⟩
+
+open Zeno.Model.Flow in
+/-- **The finisher's feedback never blocks.** In every reachable state in which a finisher worker holds a seed, the reactor's input
+channel has room for it (the seed still has its token, and the channel is as large as the token pool). -/
+theorem c01_feedback_never_blocks (w : Nat) (acts : List Act) (hf : 0 < (Zeno.Model.Flow.run ⟨w, w, w⟩ {} acts).fs) :
+    (Zeno.Model.Flow.step ⟨w, w, w⟩ (Zeno.Model.Flow.run ⟨w, w, w⟩ {} acts) .finFeedback).isSome = true :=
+  feedback_enabled _ _ (inv_run ⟨w, w, w⟩ acts {} (inv_init _)) hf
+
+open Zeno.Model.Flow in
+/-- **No deadlock.** After any interleaving of receives and sends of any of the workers (`--workers` ≥ 1), as long as anything is
+left inside the pipeline some step other than a new insert is enabled: a worker can receive or send, `run` can forward, the
+finisher can hand its seed back / on, or the source can consume an acknowledgement or a new URL. -/
+theorem c01_no_deadlock (w : Nat) (hw : 1 ≤ w) (acts : List Act) (hb : (Zeno.Model.Flow.run ⟨w, w, w⟩ {} acts).busy = true) :
+    ∃ a, a ≠ Act.insert ∧ (Zeno.Model.Flow.step ⟨w, w, w⟩ (Zeno.Model.Flow.run ⟨w, w, w⟩ {} acts) a).isSome = true :=
+  progress ⟨w, w, w⟩ hw hw _ (inv_run ⟨w, w, w⟩ acts {} (inv_init _)) hb
+
+open Zeno.Model.Flow in
+/-- … and every such step except the finisher's feedback (bounded per seed by `c01_seed_is_let_go`) and the hand-over of an outlink
+moves an item strictly closer to the exit: the flow cannot spin. -/
+theorem c01_steps_make_progress (w : Nat) (s s' : S) (a : Act) (hs : Zeno.Model.Flow.step ⟨w, w, w⟩ s a = some s')
+    (ha : a ≠ .insert ∧ a ≠ .finFeedback ∧ a ≠ .postOutlink) : s'.weight < s.weight :=
+  weight_decreases _ s s' a hs ha
+
+/-- non-vacuity: two workers, three inserts (the third waits for a token), one seed goes round twice, everything drains -/
+example :
+    let acts : List Zeno.Model.Flow.Act := [.insert, .insert, .insert, .runTake, .runSend, .preTake, .preSend, .archTake, .archSend, .postTake, .postOutlink,
+      .postSend, .finTakeOutlink, .finProduce, .finTakeSeed, .finFeedback, .srcNew, .runTake, .runSend, .runTake, .runSend, .preTake, .preTake]
+    let s := Zeno.Model.Flow.run ⟨2, 2, 2⟩ {} acts
+    (s.used, s.seeds, s.p, s.busy) = (2, 2, 2, true) ∧ (Zeno.Model.Flow.enabled ⟨2, 2, 2⟩ s) = [.preSend] := by
+  decide +kernel
 
 end Zeno.Props.C01
